@@ -4,7 +4,10 @@
 //! replay: behaviours emitted by TLC ({delegates, init: node -> state, steps: [{op, arg, res, ret,
 //!   exists, ns}]}) are materialised in a real `Storage`: a real repository whose identity document
 //!   has exactly the delegate set of the case, real namespaces with real references and real signed
-//!   refs (`sign_refs`), sigrefs removed / corrupted as the case says; `clean` / a re-fetch are run
+//!   refs (`sign_refs`), sigrefs removed / corrupted as the case says, the canonical `refs/rad/id`
+//!   re-pointed at a commit without an identity document ("missing") or with a document of version 2
+//!   ("unsupported") when the case says the identity document does not load; `clean` / a re-fetch /
+//!   a re-pointing of refs/rad/id are run
 //!   and after every step the projection of the real repository (per node: absent / unsigned /
 //!   signed / corrupt) is compared with the model's.
 //!   gating (property C28): after a successful clean that keeps the repository the namespaces of the
@@ -25,7 +28,7 @@ use radicle::node::device::Device;
 use radicle::node::Alias;
 use radicle::storage::git::{Repository, Storage};
 use radicle::storage::refs::SignedRefsAt;
-use radicle::storage::{ReadStorage, RemoteId, SignRepository, WriteRepository, WriteStorage};
+use radicle::storage::{ReadRepository, ReadStorage, RemoteId, SignRepository, WriteRepository, WriteStorage};
 
 fn dev(i: usize) -> Device<MockSigner> {
     Device::mock_from_seed([(i + 1) as u8; 32])
@@ -117,12 +120,52 @@ impl World {
         rid
     }
 
+    /// Re-point the canonical identity reference at a commit whose identity document does not load.
+    fn break_id(&self, repo: &Repository, kind: &str) {
+        let raw = repo.raw();
+        let sig = git2::Signature::new("a", "a@x", &git2::Time::new(1514817556, 0)).unwrap();
+        let commit = match kind {
+            // a commit that carries no embeds/radicle.json at all
+            "missing" => raw.refname_to_id("refs/verif/base").expect("base commit"),
+            // a commit that carries the repository's own document, with `"version": 2`
+            "unsupported" => {
+                let doc = repo.identity_doc().unwrap_or_else(|e| fatal(&format!("identity doc: {e}")));
+                let (_, bytes) = doc.doc.encode().expect("encode");
+                let mut v: serde_json::Value = serde_json::from_slice(&bytes).expect("json");
+                v["version"] = serde_json::json!(2);
+                let blob = raw.blob(serde_json::to_string(&v).unwrap().as_bytes()).unwrap();
+                let mut embeds = raw.treebuilder(None).unwrap();
+                embeds.insert("radicle.json", blob, 0o100_644).unwrap();
+                let embeds = embeds.write().unwrap();
+                let mut root = raw.treebuilder(None).unwrap();
+                root.insert("embeds", embeds, 0o040_000).unwrap();
+                let tree = raw.find_tree(root.write().unwrap()).unwrap();
+                raw.commit(None, &sig, &sig, "identity document of a future version", &tree, &[]).unwrap()
+            }
+            k => fatal(&format!("unknown identity state {k}")),
+        };
+        raw.reference("refs/rad/id", commit, true, "verif").expect("re-point refs/rad/id");
+    }
+
+    /// Does the identity document at the canonical refs/rad/id load? "ok" | "missing" | "unsupported"
+    fn iddoc(&self, rid: &RepoId) -> String {
+        if !self.live_path(rid).exists() {
+            return "gone".into();
+        }
+        let repo = self.live.repository(*rid).unwrap_or_else(|e| fatal(&format!("open: {e}")));
+        match repo.identity_doc() {
+            Ok(_) => "ok".into(),
+            Err(e) if e.to_string().contains("version") => "unsupported".into(),
+            Err(_) => "missing".into(),
+        }
+    }
+
     fn live_path(&self, rid: &RepoId) -> PathBuf {
         self.live.path().join(rid.canonical())
     }
 
     /// Put the repository into the live storage with the given namespace states.
-    fn setup(&mut self, delegates: &[String], init: &BTreeMap<String, String>) -> RepoId {
+    fn setup(&mut self, delegates: &[String], init: &BTreeMap<String, String>, iddoc: &str) -> RepoId {
         let rid = self.template(delegates);
         let path = self.live_path(&rid);
         if path.exists() {
@@ -169,6 +212,9 @@ impl World {
                 }
                 s => fatal(&format!("unknown namespace state {s}")),
             }
+        }
+        if iddoc != "ok" {
+            self.break_id(&repo, iddoc);
         }
         rid
     }
@@ -219,6 +265,11 @@ impl World {
             "fetch" => {
                 let repo = self.live.repository(*rid).unwrap_or_else(|e| fatal(&format!("open: {e}")));
                 self.add_namespace(&repo, self.idx(arg));
+                ("ok".into(), vec![], String::new())
+            }
+            "breakid" => {
+                let repo = self.live.repository(*rid).unwrap_or_else(|e| fatal(&format!("open: {e}")));
+                self.break_id(&repo, arg);
                 ("ok".into(), vec![], String::new())
             }
             o => fatal(&format!("unknown op {o}")),
@@ -272,10 +323,11 @@ fn replay_chunk(work: &Path, cases: Vec<(usize, Value)>) -> (Vec<Value>, [u64; 5
     for (ci, c) in cases.iter() {
         let delegates = strs(&c["delegates"]);
         let init = str_map(&c["init"]);
-        let rid = w.setup(&delegates, &init);
+        let iddoc0 = c["iddoc"].as_str().unwrap_or("ok");
+        let rid = w.setup(&delegates, &init, iddoc0);
         let (e0, p0) = w.project(&rid);
-        if !e0 || p0 != init {
-            fatal(&format!("case {ci}: could not materialise {init:?}: got {p0:?}"));
+        if !e0 || p0 != init || w.iddoc(&rid) != iddoc0 {
+            fatal(&format!("case {ci}: could not materialise {init:?} identity {iddoc0}: got {p0:?} identity {}", w.iddoc(&rid)));
         }
         let mut pre = p0;
         for (si, s) in c["steps"].as_array().unwrap().iter().enumerate() {
@@ -292,14 +344,19 @@ fn replay_chunk(work: &Path, cases: Vec<(usize, Value)>) -> (Vec<Value>, [u64; 5
                 }
                 viol = breach("L", &delegates, &pre, &res, exists, &post);
             }
-            let same = res == s["res"].as_str().unwrap() && ret == strs(&s["ret"]) && exists == s["exists"].as_bool().unwrap() && post == str_map(&s["ns"]);
+            let idnow = w.iddoc(&rid);
+            let same = res == s["res"].as_str().unwrap()
+                && ret == strs(&s["ret"])
+                && exists == s["exists"].as_bool().unwrap()
+                && post == str_map(&s["ns"])
+                && (!exists || idnow == s["iddoc"].as_str().unwrap_or("ok"));
             if viol.is_some() {
                 bad += 1;
             } else if !same {
                 drift += 1;
             }
             if viol.is_some() || (!same && recs.len() < 200) {
-                recs.push(json!({"ok": viol.is_none(), "drift": viol.is_none() && !same, "case": ci, "step": si, "delegates": delegates, "init": init,
+                recs.push(json!({"ok": viol.is_none(), "drift": viol.is_none() && !same, "case": ci, "step": si, "delegates": delegates, "init": init, "iddoc": iddoc0, "iddoc_now": idnow,
                     "steps": c["steps"], "breach": viol, "pre": pre, "expected": {"res": s["res"], "ret": s["ret"], "exists": s["exists"], "ns": s["ns"]},
                     "actual": {"res": res, "ret": ret, "exists": exists, "ns": post, "detail": detail}}));
             }
@@ -371,23 +428,28 @@ fn main() {
                         (nm.clone(), s.to_owned())
                     })
                     .collect();
-                let rid = w.setup(&delegates, &init);
+                let iddoc0 = ["ok", "ok", "ok", "missing", "unsupported"][rng.usize(0..5)];
+                let rid = w.setup(&delegates, &init, iddoc0);
                 let (_, p0) = w.project(&rid);
-                if p0 != init {
-                    fatal(&format!("could not materialise {init:?}: got {p0:?}"));
+                if p0 != init || w.iddoc(&rid) != iddoc0 {
+                    fatal(&format!("could not materialise {init:?} identity {iddoc0}: got {p0:?}"));
                 }
-                o.emit(&json!({"op": "reset", "arg": "", "delegates": delegates, "res": "ok", "ret": [], "exists": true, "ns": p0}));
+                o.emit(&json!({"op": "reset", "arg": "", "delegates": delegates, "res": "ok", "ret": [], "exists": true, "ns": p0, "iddoc": iddoc0}));
                 let mut cur = p0;
                 for _ in 0..rng.usize(1..=5) {
                     let absent: Vec<&String> = cur.iter().filter(|(_, s)| s.as_str() == "absent").map(|(k, _)| k).collect();
-                    let (op, arg) = if !absent.is_empty() && rng.u8(0..3) == 0 {
+                    let id_ok = w.iddoc(&rid) == "ok";
+                    let (op, arg) = if id_ok && !absent.is_empty() && rng.u8(0..3) == 0 {
                         ("fetch", absent[rng.usize(0..absent.len())].clone())
+                    } else if id_ok && rng.u8(0..5) == 0 {
+                        ("breakid", ["missing", "unsupported"][rng.usize(0..2)].to_owned())
                     } else {
                         ("clean", "L".to_owned())
                     };
                     let (res, ret, _) = w.step(&rid, op, &arg);
                     let (exists, post) = w.project(&rid);
-                    o.emit(&json!({"op": op, "arg": arg, "delegates": delegates, "res": res, "ret": ret, "exists": exists, "ns": post}));
+                    let idnow = if exists { w.iddoc(&rid) } else { "ok".to_owned() };
+                    o.emit(&json!({"op": op, "arg": arg, "delegates": delegates, "res": res, "ret": ret, "exists": exists, "ns": post, "iddoc": idnow}));
                     if !exists {
                         break;
                     }
